@@ -44,7 +44,7 @@ class Cfg:
     """One configuration of a run: universe + how the tracks object is constructed."""
 
     def __init__(self, N=3, T=3, dims=(), scale=(), use_scale=True, reg_cust=False,
-                 per_axis_pos=False, name="struct"):
+                 per_axis_pos=False, name="struct", enable=()):
         self.N, self.T = N, T
         self.dims = tuple(dims)
         self.scale = tuple(scale) if scale else tuple(1 for _ in dims)
@@ -52,6 +52,7 @@ class Cfg:
         self.reg_cust = reg_cust        # register the custom attribute as a feature
         self.per_axis_pos = per_axis_pos
         self.name = name
+        self.enable = list(enable)      # model feature names enabled right after construction
         self.P = int(np.prod(self.dims)) if self.dims else 0
 
     @property
@@ -61,7 +62,7 @@ class Cfg:
     def to_json(self):
         return {"N": self.N, "T": self.T, "dims": list(self.dims), "scale": list(self.scale),
                 "use_scale": self.use_scale, "reg_cust": self.reg_cust,
-                "per_axis_pos": self.per_axis_pos, "name": self.name}
+                "per_axis_pos": self.per_axis_pos, "name": self.name, "enable": self.enable}
 
     @staticmethod
     def from_json(d):
@@ -93,6 +94,8 @@ class Driver:
             self.tracks.features[CUSTOM_KEY] = {
                 "feature_type": "node", "value_type": "int", "num_values": 1,
                 "display_name": "custom", "required": False, "default_value": None}
+        if cfg.enable:
+            self.tracks.enable_features([FEAT[k] for k in cfg.enable])
         self.emits = []
         self.tracks.refresh.connect(self._on_refresh)
 
@@ -327,6 +330,10 @@ def alphabet(drv: Driver, kinds=None, wide=True):
                 for v in range(0, N + 1):
                     # a stroke with an existing label stays in that label's frame (C07 domain)
                     if v != 0 and v in g and int(g.nodes[v][tr.features.time_key]) != t:
+                        continue
+                    if v == 0 or v in g:
+                        # track id and force only matter when the stroke creates a node
+                        out.append([K_PAINT, t, bits, v, 2])
                         continue
                     for i in sorted({1, maxT + 1}):
                         for f in (0, 1):
